@@ -47,6 +47,15 @@ CHECKS = {
     "C15": dict(engine="E4", level="exploration", technique="deterministic enumeration of key shapes (EC scalars 1..N, OKP seed counter, RSA exponents) through the real loaders/encoders, compared with an independent encoding; signature shape cells enforced by looping",
                 text="EC scalars 1..20000/5000/1000 (quick) or 70000/20000/5000 (thorough) per curve, 5000/2000 OKP seeds, RSA-2048 e in {3, 65537, 2^32+1} and RSA-4096, generated keys of all 7 types; JWK members and values, RFC 7638 thumbprint input, PEM/DER round trips, signatures verified by an independent fixed-width verifier; required shape cells (leading zero bytes, base64 - and _) must be non-empty.",
                 note="Trusted: OpenSSL's raw component accessors and probe/cryptoutil.rs.", ref="4/C15"),
+    "C16": dict(engine="E5/E4", level="exploration", technique="one fresh release tacd per configuration cell, inspected by a TLS client plus an independent DER walker",
+                text="10 domains (1..5 labels, mixed case, IDN, upper-case IDN, A-label, IPv4/IPv6 reverse names) x 7 digests, 7 key types x 3 digest algorithms, {TCP, unix socket} x value source {flag, file, stdin}, 8 client ALPN lists, proofs rendered by the daemon's own get_proof: handshake succeeds with acme-tls/1 negotiated, certificate self-signed, currently valid, SAN = exactly the A-label, critical acmeIdentifier = the digest, key of the requested type; clients offering only foreign protocols are refused.",
+                note="Clients without ALPN are observed, not judged. Trusted: Python's ssl module as the client, OpenSSL for the self-signature.", ref="4/C16"),
+    "C17": dict(engine="E5", level="model_checking", technique="exhaustive enumeration of connection-behaviour histories against a fresh release tacd process each, followed by a probing handshake",
+                text="Every ordered selection (with repetition) of 0..2 (quick: 57) / 0..4 (thorough: 2801) behaviours from {connect+close, garbage, plain HTTP, TLS without ALPN, TLS with foreign ALPN, ClientHello then silence, 50 stalled connections} on TCP, depth <= 1 on the unix socket, each followed by a valid acme-tls/1 handshake judged with C16's certificate oracle; the process must never exit or be signalled.",
+                note="Release profile (panic=abort) as shipped by the Makefile. Each behaviour gets 30 ms before the next.", ref="4/C17"),
+    "C18": dict(engine="E4", level="exploration", technique="exhaustive grid of root-certificate sources x system store x server chain with the mock CA behind TLS",
+                text="All 8 subsets of {--root-cert, endpoint root_certificates, global root_certificates} carrying the right root, the others an unrelated root or nothing, x SSL_CERT_FILE {empty, unrelated, right} x server chain {trusted, unknown root, other host name, expired}, plus missing / non-PEM root files per source: trusted => the issuance proceeds; otherwise the attempt fails and the server's log shows no HTTP request and no JWS.",
+                note="A bare TLS handshake attempt is allowed. Unreadable files cannot be produced as root.", ref="4/C18"),
     "C19": dict(engine="E4", level="exploration", technique="bounded-exhaustive field-by-field mutation of a full configuration + hazard catalogue, each case in a crash-isolated worker; exhaustive period-string sweep against a reference parser",
                 text="~1000 field mutants (delete, duplicate, unknown key, 13 replacement values incl. wrong types and boundary numbers, section drops) and ~120 hazards (group cycles, include cycles, zero/huge rate limits, overflowing periods at every level, identifier/template hazards) loaded and run until the first attempt ends; a crash, panic, or hang of the worker is the verdict. All 111 111 strings of length <= 5 over 10 symbols + 40 long numerals compared with a reference period parser. Thorough repeats the hazards on the release binary (panic=abort).",
                 note="A limit of n requests per practically endless period is honoured by waiting and is not counted as a hang.", ref="4/C19"),
@@ -59,6 +68,12 @@ CHECKS = {
 }
 
 NOT_YET = {}
+CHECKS_C20 = dict(engine="E5", level="model_checking", technique="exhaustive enumeration of shipped hook group x git x identifier depth x issuance count histories with real tools, release tacd and a really validating CA",
+                  text="The working tree's default_hooks.toml with real mkdir/echo/chmod/rm/pkill/git/tacd: {http-01-echo, tls-alpn-01-tacd-tcp, tls-alpn-01-tacd-unix} x {alone, +git} x identifiers of 1..3 labels x 1..2 (quick) / 1..3 (thorough) consecutive issuances, variables set or defaulted; the CA reads the http-01 file at the documented path and performs the acme-tls/1 handshake on the documented address or socket; afterwards no proof file, tacd process, pid file or socket may remain and git log must contain every stored file.",
+                  note="HTTP_ROOT / TACD_PID_ROOT / TACD_SOCK_ROOT are always scratch paths; identifiers resolve to 127.0.0.1.", ref="4/C20")
+
+
+CHECKS["C20"] = CHECKS_C20
 
 
 def main():
